@@ -35,10 +35,13 @@ import (
 
 var pool = kit.RoutablePool("c13", 110)
 
+// privID is the identity of a router with a privacy (non-routable) address.
+var privID = kit.GenIdentity(kit.NewDRBG("ids/c13-privacy", 1), m.PrivacyAddressPrefix)
+
 type tworld struct {
 	w          *kit.World
 	r, x, y, u *kit.Node
-	p          *kit.Node // unused: a peer with a non-routable (privacy) address cannot hold a link at all (AddLink refuses it)
+	p          *kit.Node // a router with a privacy (non-routable) address: it cannot hold a link, but has end-to-end keys with R; its frames arrive relayed over X's link
 }
 
 func must(err error) {
@@ -84,6 +87,10 @@ func buildFlavour(swap, pending bool) *tworld {
 	}
 	_, _, err := w.Connect(tw.y, tw.u, 31, 32, 5)
 	must(err)
+	pn, err := w.AddNode("P", privID, config.Store{})
+	must(err)
+	tw.p = pn
+	must(kit.KeySessions(tw.p, tw.r))
 	return tw
 }
 
@@ -294,6 +301,17 @@ func deviations() []deviation {
 		t := t
 		add("type", fmt.Sprintf("type=%d", t), func(tw *tworld, rc *recipe) { rc.mt = frame.MessageType(t) })
 	}
+	add("src", "sender=privacy-address-router-with-keys(relayed-by-X)", func(tw *tworld, rc *recipe) {
+		rc.src = tw.p.Identity().IP
+		rc.fromP = true
+		rc.hdr.AddrHash, rc.hdr.KeyType, rc.hdr.PublicKey = tw.p.Identity().Hash, tw.p.Identity().Type, tw.p.Identity().PublicKey
+		if rc.mt == frame.NetworkTraffic && len(rc.rawMsg) >= 44 {
+			// the inner packet names the same sender.
+			rc.rawMsg = append([]byte(nil), rc.rawMsg...)
+			ip := tw.p.Identity().IP.As16()
+			copy(rc.rawMsg[8:24], ip[:])
+		}
+	})
 	for _, name := range []string{"self(R)", "Y", "U-unknown", "multicast-routers", "api", "zero", "non-mycoria", "privacy-range", "v4mapped"} {
 		name := name
 		add("src", "src="+name, func(tw *tworld, rc *recipe) { rc.src = addrAlphabet(tw)[name] })
@@ -419,6 +437,12 @@ func deviations() []deviation {
 			rc.rawMsg[42], rc.rawMsg[43] = 0, 0
 		}
 	})
+	add("inner", "inner=closed-port", func(tw *tworld, rc *recipe) {
+		if rc.rawMsg != nil && len(rc.rawMsg) >= 44 {
+			rc.rawMsg = append([]byte(nil), rc.rawMsg...)
+			rc.rawMsg[42], rc.rawMsg[43] = 0, 81
+		}
+	})
 	add("inner", "inner=ipv4-version", func(tw *tworld, rc *recipe) {
 		if rc.rawMsg != nil && len(rc.rawMsg) >= 44 {
 			rc.rawMsg = append([]byte(nil), rc.rawMsg...)
@@ -469,7 +493,7 @@ func (tw *tworld) deliver(rc recipe) (panics []string, err error) {
 	np := len(tw.w.Panics)
 	switch {
 	case rc.fromP && rc.via == 0:
-		tw.w.Inject(tw.p, tw.r, raw)
+		tw.w.Inject(tw.x, tw.r, raw) // relayed by X
 		rc.via = 0
 	}
 	switch rc.via {
